@@ -118,9 +118,12 @@ RoundAtSet(x, pos) == RoundSigSet(x, x.e - pos + 1)
 (* half a unit of the n-th significant digit of x; half a unit at a power of ten *)
 HalfUlp(x, n) == Dec(FALSE, <<5>>, x.e - n)
 HalfAt(pos) == Dec(FALSE, <<5>>, pos - 1)
-\* allowance for the binary representation of a float whose shortest repr is x:
-\* |float - x| <= 2^-53 * |x| < 1.2 * 10^(e-15); two units of the 16th digit are allowed
-BinSlack(x) == Dec(FALSE, <<2>>, x.e - 15)
+\* allowance for binary floating point: a float whose shortest repr is x differs from x by at most
+\* 2^-53 |x| < 1.2 * 10^(e-15), and a formatter that scales by powers of ten and back loses a few
+\* more units in the last place; a double carries 15 reliable significant decimal digits (DBL_DIG),
+\* so one unit of the 15th digit is allowed.  It matters only where more than 15 digits are asked
+\* for (value with uncertainty: nominal digits = decades between value and uncertainty + precision).
+BinSlack(x) == Dec(FALSE, <<1>>, x.e - 14)
 WithinHalfUlpExact(d, x, n) == WithinTol(d, x, <<HalfUlp(x, n)>>)
 WithinHalfUlp(d, x, n) == WithinTol(d, x, <<HalfUlp(x, n), BinSlack(x)>>)
 NumSig(x) == Len(DNorm(x).digs)
